@@ -4,7 +4,7 @@ SHELL := /bin/bash
 COQ_TIMEOUT ?= 1800
 J ?= 12
 
-.PHONY: setup all gen coq extract driver clean prectable offlinegen offlinegen-check offlinegen-mutants coqchk static
+.PHONY: setup all gen coq extract driver clean prectable onlinegen offlinegen offlinegen-check offlinegen-mutants coqchk static
 
 # `make all` never stops at the first failure: a source file of nickovic/rtamt that a translator refuses, or a proof that no longer
 # checks against the regenerated text, must break the obligations of the properties that depend on it and of no other property.
@@ -18,7 +18,7 @@ all:
 	@($(MAKE) coq > build/status/coq.log 2>&1 && echo ok > build/status/coq) || (tail -40 build/status/coq.log > build/status/coq; true)
 	@($(MAKE) driver > build/status/driver.log 2>&1 && echo ok > build/status/driver) || (tail -40 build/status/driver.log > build/status/driver; true)
 	@grep -v "^COQC\|^COQDEP\|Closed under the global context\|^make" build/status/coq.log | tail -5; true
-	@for f in prectable offlinegen coq driver; do if [ "`head -c 2 build/status/$$f`" != "ok" ]; then echo "make all: step $$f failed (build/status/$$f)"; fail=1; fi; done; test -z "$$fail"
+	@for f in prectable offlinegen onlinegen coq driver; do if [ "`head -c 2 build/status/$$f`" != "ok" ]; then echo "make all: step $$f failed (build/status/$$f)"; fail=1; fi; done; test -z "$$fail"
 
 coq/Makefile.coq: coq/_CoqProject
 	cd coq && coq_makefile -f _CoqProject -o Makefile.coq
@@ -29,6 +29,7 @@ gen:
 	@mkdir -p build/status
 	@($(MAKE) -s prectable > build/status/prectable.log 2>&1 && echo ok > build/status/prectable) || (tail -20 build/status/prectable.log > build/status/prectable; true)
 	@($(MAKE) -s offlinegen > build/status/offlinegen.log 2>&1 && echo ok > build/status/offlinegen) || (tail -20 build/status/offlinegen.log > build/status/offlinegen; true)
+	@($(MAKE) -s onlinegen > build/status/onlinegen.log 2>&1 && echo ok > build/status/onlinegen) || (tail -20 build/status/onlinegen.log > build/status/onlinegen; true)
 
 # the precedence table of the parser model is regenerated from rtamt's generated ANTLR parser on every build
 prectable:
@@ -43,6 +44,14 @@ offlinegen:
 	@mkdir -p build
 	python3 tools/py2coq_offline.py $(REPO) build/OfflineGen.v.new
 	@cmp -s build/OfflineGen.v.new coq/theories/OfflineGen.v || cp build/OfflineGen.v.new coq/theories/OfflineGen.v
+
+# the operation classes of the discrete-time online monitor (rtamt/semantics/{stl,iastl}/discrete_time/online/*_operation.py) are
+# re-translated on every build (tools/py2coq_online.py, fail-closed); OnlineGenCorrect.v re-checks that what the code says now
+# refines the hand model Online.v (C02_generated_operations)
+onlinegen:
+	@mkdir -p build
+	python3 tools/py2coq_online.py $(REPO) build/OnlineGen.v.new
+	@cmp -s build/OnlineGen.v.new coq/theories/OnlineGen.v || cp build/OnlineGen.v.new coq/theories/OnlineGen.v
 
 # method-level differential check of the generated definitions against the Python methods (not part of `all`: ~2 min of vm_compute input)
 offlinegen-check: coq
